@@ -419,6 +419,8 @@ def check(ctx):
     check_single_source(ctx)
     check_generated_codecs(ctx)
     check_surroundings(ctx)
+    from ..model import check_stale_derived
+    check_stale_derived(ctx, 'R9-ctor-derived-state', 'Int', clause='c')
     ctx.floor('strategy pairs of Int', ctx.units.get('strategy_pairs', 0), 2)
     ctx.floor('endianness fold cases', sum(1 for o in ctx.obs if o.rule == 'R9-endianness-fold'), 9)
     from ..model import check_conf_plumbing
